@@ -22,11 +22,14 @@ Check(x) ==
     IF x.outcome = "hang" THEN "C07.Hang"
     ELSE IF x.outcome = "returned" THEN "C07.SilentReturn"
     ELSE IF ~x.next_ok THEN "C07.ProxyUnusableAfterwards"
+    \* an error whose reply is too large to be sent: the statement only promises an error (never a hang, never a value) and a usable proxy
+    ELSE IF x.kind = "oversize" THEN ""
     ELSE IF e.what = "same" THEN
          (IF ~x.same_class THEN "C07.DifferentClass"
           ELSE IF ~x.args_equal THEN "C07.ArgsDiffer"
           ELSE IF ~x.attrs_equal THEN "C07.AttributesDiffer"
           ELSE IF ~x.has_traceback THEN "C07.NoRemoteTraceback"
+          ELSE IF ~x.tb_own THEN "C07.RemoteTracebackNotOfThisRaise"
           ELSE "")
     ELSE (IF x.same_class /\ x.args_equal THEN ""            \* it travelled after all: fine
           ELSE IF ~x.is_pyro_error THEN "C07.FallbackNotAPyroError"
